@@ -15,7 +15,11 @@ logger = logging.getLogger(__name__)
 
 
 def pause_execution(pool: Any, execution_id: str, paused_by: str) -> None:
-    """Pause an execution."""
+    """Pause an execution.
+
+    A workflow that already reached a final status stays as it is: the status
+    check is part of the UPDATE, like the one in resume_execution.
+    """
     paused = PausedDetails(
         paused_by=paused_by,
         pause_time=int(time.time() * 1000),
@@ -29,6 +33,8 @@ def pause_execution(pool: Any, execution_id: str, paused_by: str) -> None:
                     status = %(status)s,
                     paused = %(paused)s::jsonb
                 WHERE id = %(id)s
+                  AND status NOT IN
+                      ('SUCCEEDED', 'FAILED_CONTINUE', 'TERMINAL', 'CANCELED', 'STOPPED', 'SKIPPED')
                 """,
                 {
                     "id": execution_id,
